@@ -135,6 +135,43 @@ RAW = [
 ]
 
 # ---------------- C13 ----------------
+def c13_through_cli(ctx, texts, meta, r):
+    """`cgt-tool parse`, the property's second observation point: a decorated text in one file, and the same text cut at a line boundary into
+    two files of which the first has lost its final newline, must print the transactions the library reads from the text."""
+    import os, shutil, subprocess
+    rng = ctx.rng
+    root = os.path.join(build.CACHE, "run", "c13cli-%d" % os.getpid()); shutil.rmtree(root, ignore_errors=True); os.makedirs(root)
+    try:
+        ids = [c for c in texts if meta[c][0] == "decorated" and r[c].get("ok") and len(r[c].get("txns", [])) >= 2][:ctx.n(25, 400)]
+        for n, cid in enumerate(ids):
+            t = texts[cid]; t = t if isinstance(t, str) else t.decode("utf-8")
+            wd = os.path.join(root, "t%d" % n); os.makedirs(wd)
+            open(os.path.join(wd, "one.cgt"), "w", newline="").write(t)
+            # cut after a line terminator; the first file drops that terminator (a file without final newline), the CLI's join restores a line break
+            cuts = [m.end() for m in re.finditer(r"\r\n|\n|\r", t) if 0 < m.end() < len(t)]
+            cmds = [(["parse", "one.cgt"], "one file")]
+            if cuts:
+                k = rng.choice(cuts); head = t[:k]
+                head = head[:-2] if head.endswith("\r\n") else head[:-1]
+                open(os.path.join(wd, "a.cgt"), "w", newline="").write(head); open(os.path.join(wd, "b.cgt"), "w", newline="").write(t[k:])
+                cmds.append((["parse", "a.cgt", "b.cgt"], "two files, the first without final newline"))
+            want = json.loads(r[cid]["json_pretty"]) if r[cid].get("json_pretty") else None
+            for args, what in cmds:
+                p = subprocess.run([build.CLI] + args, cwd=wd, stdout=subprocess.PIPE, stderr=subprocess.PIPE, env=dict(build.ENV, HOME=wd), timeout=60)
+                ctx.evaluations += 1; ctx.count("cli_parse", what)
+                got = None
+                if p.returncode == 0:
+                    try: got = json.loads(p.stdout)
+                    except Exception: got = None
+                if p.returncode != 0 or got != want:
+                    ctx.disagreements_checked += 1
+                    ctx.violation("`cgt-tool %s` (%s) does not print the transactions read from the text: exit %s, %s transactions instead of %s; %s" %
+                                  (" ".join(args), what, p.returncode, len(got) if isinstance(got, list) else "?", len(want) if want is not None else "?", p.stderr[-160:].decode("utf-8", "replace")),
+                                  {"text": t, "text_hex": hexs(t), "files": {a: open(os.path.join(wd, a), newline="").read() for a in args[1:]}, "stdout": p.stdout[-600:].decode("utf-8", "replace"), "case_id": cid}, found_input=True)
+                    return
+    finally:
+        shutil.rmtree(root, ignore_errors=True)
+
 def k_c13(ctx):
     rng = ctx.rng
     texts = {}; meta = {}
@@ -188,6 +225,7 @@ def k_c13(ctx):
         if kd:
             ctx.disagreements_checked += 1
             ctx.violation("correspondence K.C13.parse broken: %s" % kd, {"text": t, "text_hex": hexs(t), "model": mm, "code": rr, "correspondence": "K.C13.parse", "case_id": cid}, found_input=False)
+    c13_through_cli(ctx, texts, meta, r)
 
 def brief(x):
     if x.get("ok"): return "ok %d txns" % len(x.get("txns", []))
